@@ -105,6 +105,8 @@ def mdInfo (m : Md) : List (String × Json) :=
     | .legacy pp _ => optStr (canonPayload pp)
     | _ => Json.null
   [("signable", signable), ("refusal", refusal), ("legacy_refusal", legacyRefusal), ("valid", valid), ("unsigned_mb_reload", Json.str unsignedMb), ("unsigned_env_reload", Json.str unsignedEnv), ("res", "ok"), ("kind", kind), ("wrapper", wrapper), ("canon", optStr (canonPayload p)), ("sigs", sigs),
+   -- canonicalise, change a nested value in place, canonicalise again: the bytes of the content as it is now
+   ("signable_after_poke", optStr ((canonPayload p).bind fun _ => canonPayload (InToto.Sign.pokeP p (L "poked~!")))),
    ("roundtrip", rt), ("dsse_payload", dssePayload), ("dsse_reload", dsseReload)]
 
 def handleMeta (op : String) (a : Json) : Option Json :=
